@@ -107,6 +107,39 @@ def replay_config(model, path):
     return dict(confirmed=False, reason="no configuration in the bank deviates", tried=len(combos) * len(ADDRS))
 
 
+def replay_protocol():
+    """through the real GeminiServerProtocol: the decision is taken on the transport's peer address, unaltered"""
+    from replay.server_bank import FakeTransport
+    from nauyaca.server.protocol import GeminiServerProtocol
+    from nauyaca.protocol.response import GeminiResponse
+    cases = [(None, ["::ffff:198.51.100.0/120"], True, "::ffff:198.51.100.7"), (None, ["::ffff:203.0.113.9"], True, "::ffff:203.0.113.9"),
+             (["10.0.0.0/8"], None, True, "::ffff:10.1.2.3"), (["::ffff:0:0/96"], None, False, "::ffff:192.0.2.1"), (None, ["198.51.100.0/24"], True, "::ffff:198.51.100.7"),
+             (["2001:db8::/32"], None, False, "2001:db8::5"), (None, ["10.0.0.0/8"], True, "10.9.9.9"), (["127.0.0.1"], None, True, "127.0.0.1")]
+    for al, dl, default, peer in cases:
+        cfg = mw.AccessControlConfig(allow_list=al, deny_list=dl, default_allow=default)
+        want = oracle(al, dl, default, peer)
+
+        async def go():
+            calls = []
+            p_ = GeminiServerProtocol(lambda r: (calls.append(r), GeminiResponse(status=20, meta="text/gemini", body="ok"))[1], mw.MiddlewareChain([mw.AccessControl(cfg)]))
+            t = FakeTransport(peer=(peer, 4242))
+            t.proto = p_
+            p_.connection_made(t)
+            p_.data_received(b"gemini://example.org/\r\n")
+            for _ in range(8):
+                await asyncio.sleep(0)
+            if p_.timeout_handle:
+                p_.timeout_handle.cancel()
+            return t.out, len(calls)
+        out, ncalls = asyncio.run(go())
+        admitted = out.startswith(b"20 ")
+        if admitted != want or (not want and (not out.startswith(b"53 ") or ncalls)):
+            return dict(confirmed=True, input=dict(allow_list=al, deny_list=dl, default_allow=default, peer=peer, via="GeminiServerProtocol + MiddlewareChain([AccessControl])"),
+                        observed=dict(bytes_on_wire=repr(out[:40]), handler_calls=ncalls, written_policy_admits=want),
+                        clause="the decision is taken on the peer's own address: admitted exactly when no deny entry contains it and (an allow entry contains it or no allow list and default allow)")
+    return dict(confirmed=False, reason="protocol-level decisions match the written policy", tried=len(cases))
+
+
 def replay_policy(model):
     """_is_allowed / process_request / __init__: differential run over a bank of configurations."""
     tried = 0
@@ -147,6 +180,10 @@ def main():
     p = load()
     ob = p["obligation"]
     model = p.get("model") or {}
+    if ob == "__bounded__" or "GeminiServerProtocol" in ob:
+        r = replay_protocol()
+        if r.get("confirmed") or "GeminiServerProtocol" in ob:
+            done(**r)
     if ob == "__bounded__":
         for default in (False, True):
             r = replay_config({"enabled": True, "w_default_allow": default}, [])
